@@ -304,6 +304,8 @@ fn file_case(fmt: usize, colors: &[Rgb], title: &str, author: &str, descr: &str,
 enum Case {
     Hist(usize, Vec<Op>),
     ParserHist(Vec<usize>),
+    /// every extension of this history by one more token
+    ParserHistExt(Vec<usize>),
     FileOne(usize, u8),        // format, r level index: all g,b levels x text combos, n = 1
     FileMany(usize, usize),    // format, n
     FileAll(usize, u8),        // thorough: format, r : all 65536 (g,b) in palettes of 256
@@ -339,7 +341,9 @@ fn build(tier: &str) -> C16 {
         }
     }
     let nt = parser_tokens().len();
-    let pdepth = if thorough { 4 } else { 3 };
+    // depth 3 histories are kept as cases of their own; the thorough tier's depth 4 is enumerated inside one case per depth 3 prefix
+    // (48^4 histories do not fit into the memory of 16 workers as a list)
+    let pdepth = 3;
     let mut stack: Vec<Vec<usize>> = vec![vec![]];
     for _ in 0..pdepth {
         let mut next = Vec::new();
@@ -354,6 +358,11 @@ fn build(tier: &str) -> C16 {
             cases.push(Case::ParserHist(h.clone()));
         }
         stack = next;
+    }
+    if thorough {
+        for h in &stack {
+            cases.push(Case::ParserHistExt(h.clone()));
+        }
     }
     for f in 0..5 {
         for r in 0..LEVELS.len() as u8 {
@@ -390,6 +399,10 @@ impl Engine for C16 {
                 let all = parser_tokens();
                 json!({"kind": "parser colour history", "sequences": t.iter().map(|i| String::from_utf8_lossy(&all[*i].0).replace('\x1b', "ESC")).collect::<Vec<_>>()})
             }
+            Case::ParserHistExt(t) => {
+                let all = parser_tokens();
+                json!({"kind": "parser colour history, every extension by one more sequence", "sequences": t.iter().map(|i| String::from_utf8_lossy(&all[*i].0).replace('\x1b', "ESC")).collect::<Vec<_>>()})
+            }
             Case::FileOne(f, r) => json!({"kind": "palette file, 1 colour", "format": FORMATS[*f].0, "r": LEVELS[*r as usize], "g,b": "all 7x7 levels", "texts": "all 8x8 title/description combos x 2 authors x names on/off"}),
             Case::FileMany(f, n) => json!({"kind": "palette file, n colours", "format": FORMATS[*f].0, "n": n, "texts": "6 description values x names on/off"}),
             Case::FileAll(f, r) => json!({"kind": "palette file, all colours with this red value (256 palettes of 256)", "format": FORMATS[*f].0, "r": r}),
@@ -408,6 +421,13 @@ impl Engine for C16 {
         match &self.cases[idx as usize] {
             Case::Hist(s, h) => run_history(*s, h, ctx),
             Case::ParserHist(t) => run_parser_history(t, ctx),
+            Case::ParserHistExt(t) => {
+                for last in 0..parser_tokens().len() {
+                    let mut h = t.clone();
+                    h.push(last);
+                    run_parser_history(&h, ctx);
+                }
+            }
             Case::FileOne(f, r) => {
                 for g in LEVELS {
                     for b in LEVELS {
